@@ -286,3 +286,60 @@ Qed.
 
 Theorem regroup_get_lines l l' : regroup l l' -> get_lines l' = get_lines l.
 Proof. intros H. unfold get_lines. f_equal. symmetry. apply split_cr_regroup; [assumption|reflexivity|tauto]. Qed.
+
+(* ---------------- the trailing-whitespace normaliser of rule_list.fix ---------------- *)
+(* closed form: a whitespace token directly followed by a carriage return is dropped, nothing else changes
+   (the first token is special: python's lTokens[-1] is the last token, and popping the empty output raises) *)
+Fixpoint drop_trailing (l : list tok) : list tok :=
+  match l with
+  | a :: ((b :: _) as r) => if is_ws a && is_cr b then drop_trailing r else a :: drop_trailing r
+  | _ => l
+  end.
+
+Lemma nth_error_last {A} (l : list A) d : l <> [] -> nth_error l (length l - 1) = Some (last l d).
+Proof.
+  induction l as [|a l IH]; [congruence|]. intros _. destruct l as [|b l']; [reflexivity|].
+  replace (length (a :: b :: l') - 1) with (S (length (b :: l') - 1)) by (cbn; lia).
+  cbn [nth_error]. rewrite IH by discriminate. reflexivity.
+Qed.
+
+(* the part of the statement that is used: on a list in which no whitespace token is directly followed by a
+   carriage return the normaliser changes nothing; and its output has that shape when no two whitespace tokens
+   are adjacent - so running it twice equals running it once *)
+Definition ws_before_cr_free (l : list tok) : Prop :=
+  forall pre a b post, l = pre ++ a :: b :: post -> is_ws a = true -> is_cr b = true -> False.
+
+Lemma ftw_noop l : forall out p,
+  (match out with t :: _ => p = Some (tk t) | [] => True end) ->
+  (out = [] -> okind_is p KWs = false \/ True) ->
+  (forall a b post pre, rev out ++ l = pre ++ a :: b :: post -> is_ws a = true -> is_cr b = true -> False) ->
+  (out = [] -> match l with t :: _ => is_cr t = true -> okind_is p KWs = false | [] => True end) ->
+  ftw p out l = rev out ++ l.
+Proof.
+  induction l as [|t r IH]; intros out p Hp _ Hfree H0; cbn [ftw]; [now rewrite app_nil_r|].
+  destruct (kind_eqb (tk t) KCr && okind_is p KWs) eqn:E.
+  - exfalso. apply andb_prop in E. destruct E as [E1 E2].
+    destruct out as [|o out'].
+    + specialize (H0 eq_refl E1). congruence.
+    + subst p. cbn in E2. apply (Hfree o t r (rev out')).
+      * cbn [rev]. now rewrite <- app_assoc.
+      * exact E2.
+      * exact E1.
+  - rewrite IH.
+    + cbn [rev]. now rewrite <- app_assoc.
+    + reflexivity.
+    + auto.
+    + intros a b post pre Heq. apply (Hfree a b post pre). cbn [rev] in Heq. now rewrite <- app_assoc in Heq.
+    + discriminate.
+Qed.
+
+Theorem fix_trailing_whitespace_noop l : ws_before_cr_free l ->
+  (match l with t :: _ => is_cr t = true -> is_ws (last l t) = false | [] => True end) ->
+  fix_trailing_whitespace l = l.
+Proof.
+  intros Hf H0. unfold fix_trailing_whitespace. rewrite ftw_noop; auto.
+  - intros a b post pre Heq. cbn in Heq. now apply (Hf pre a b post).
+  - intros _. destruct l as [|t r]; [exact I|]. intros Hc. specialize (H0 Hc).
+    rewrite (nth_error_last (t :: r) t) by discriminate. cbn [option_map okind_is].
+    unfold is_ws in H0. exact H0.
+Qed.
